@@ -19,7 +19,7 @@ RULE = ('(a) sequential: generated accessor module on a shared memory with all 7
         'count), or / and / xor on thread-owned bits; gcc and clang builds plus a ThreadSanitizer build that must stay silent. '
         'Non-trivial = RMW narrower than its result type with high operand bits set, a failing compare-exchange, or a concurrent '
         'run in which operations of >= 2 threads interleave (seen in the returned values); distinct by (history) / (mode, '
-        'flavour, T, N, build).')
+        'flavour, T, N, build). Further modes: add / add+sub / compare-exchange increments against exchange(0) drainers and fetch-add loops against drain loops inside the module (what is left plus what the drainers took out equals initial value plus additions); a ThreadSanitizer build of the forced big-endian paths for the loop mode.')
 ASSUME = ['on this host the operations are single locked instructions: atomicity is attacked by stress + TSan, not enumeration']
 
 SHAPES = [('i32', '', 4), ('i64', '', 8), ('i32', '8', 1), ('i32', '16', 2), ('i64', '8', 1), ('i64', '16', 2), ('i64', '32', 4)]
